@@ -1,20 +1,180 @@
-//! C16 — not implemented yet (stub).
+//! C16 — promise jobs run in spec FIFO order; results do not depend on scheduling:
+//! trace(P via evaluate + run_jobs) = trace(P via evaluate_async_with_budget(b) + run_jobs)
+//! = trace with jobs drained a few per call = V8's trace.
 
 use crate::driver::{CaseOut, Env, Prop, Stream, Tier};
+use crate::genp::asyncp::generate;
+use crate::oracle::node_script;
+use crate::run::{Completion, Entry, RunCfg, Trace, apply_cfg, classify, diff_traces, install_print, panic_signature, run, take_last_panic};
+use crate::tape::Tape;
+use boa_engine::{
+    Context, JsResult, Source,
+    job::{GenericJob, Job, JobExecutor, NativeAsyncJob, PromiseJob},
+};
+use std::cell::{Cell, RefCell};
+use std::collections::VecDeque;
+use std::rc::Rc;
 
 pub struct C16;
+
+/// FIFO executor that drains at most `per_call` promise jobs per `run_jobs` call.
+#[derive(Default)]
+struct PartialExecutor {
+    promise_jobs: RefCell<VecDeque<PromiseJob>>,
+    generic_jobs: RefCell<VecDeque<GenericJob>>,
+    async_jobs: RefCell<VecDeque<NativeAsyncJob>>,
+    per_call: Cell<usize>,
+    ran: Cell<usize>,
+}
+
+impl JobExecutor for PartialExecutor {
+    fn enqueue_job(self: Rc<Self>, job: Job, _context: &mut Context) {
+        match job {
+            Job::PromiseJob(p) => self.promise_jobs.borrow_mut().push_back(p),
+            Job::GenericJob(g) => self.generic_jobs.borrow_mut().push_back(g),
+            Job::AsyncJob(a) => self.async_jobs.borrow_mut().push_back(a),
+            _ => {}
+        }
+    }
+    fn run_jobs(self: Rc<Self>, context: &mut Context) -> JsResult<()> {
+        let mut budget = self.per_call.get().max(1);
+        while budget > 0 {
+            let job = self.promise_jobs.borrow_mut().pop_front();
+            let Some(job) = job else { break };
+            job.call(context)?;
+            self.ran.set(self.ran.get() + 1);
+            budget -= 1;
+        }
+        if self.promise_jobs.borrow().is_empty() {
+            let g = self.generic_jobs.borrow_mut().pop_front();
+            if let Some(g) = g {
+                g.call(context)?;
+            }
+        }
+        context.clear_kept_objects();
+        Ok(())
+    }
+}
+
+fn run_partial(src: &str, schedule: &[usize]) -> Trace {
+    crate::run::install_panic_hook();
+    crate::run::PRINTS.with(|p| p.borrow_mut().clear());
+    let cfg = RunCfg::default();
+    let res = std::panic::catch_unwind(std::panic::AssertUnwindSafe(|| {
+        let exec = Rc::new(PartialExecutor::default());
+        let mut ctx = Context::builder().job_executor(exec.clone()).build().expect("context");
+        install_print(&mut ctx);
+        apply_cfg(&mut ctx, &cfg);
+        let r = ctx.eval(Source::from_bytes(src.as_bytes()));
+        let comp = classify(&r, src);
+        let mut i = 0usize;
+        let mut guard = 0;
+        while !(exec.promise_jobs.borrow().is_empty() && exec.generic_jobs.borrow().is_empty()) {
+            exec.per_call.set(schedule[i % schedule.len()].max(1));
+            i += 1;
+            if let Err(e) = ctx.run_jobs() {
+                let c = crate::run::throw_class(&e);
+                if c.is_internal_failure() || c.is_limit() {
+                    return c;
+                }
+            }
+            guard += 1;
+            if guard > 100_000 {
+                return Completion::Limit("harness-job-guard".into());
+            }
+        }
+        comp
+    }));
+    let completion = match res {
+        Ok(c) => c,
+        Err(_) => Completion::Panic(panic_signature(&take_last_panic().unwrap_or_default())),
+    };
+    let prints = crate::run::PRINTS.with(|p| std::mem::take(&mut *p.borrow_mut()));
+    Trace { prints, completion }
+}
+
+/// is the trace an interleaving of >= 2 chains (not chain after chain)?
+fn interleaved(prints: &[String]) -> bool {
+    let tags: Vec<&str> = prints.iter().filter_map(|l| l.split(|c| c == '.' || c == ' ').next()).filter(|t| t.starts_with('c') && t.len() <= 3).collect();
+    let mut switches = 0;
+    let mut seen = std::collections::HashSet::new();
+    let mut returned = false;
+    let mut last = "";
+    for t in tags {
+        if t != last {
+            switches += 1;
+            if seen.contains(t) {
+                returned = true;
+            }
+            seen.insert(t);
+            last = t;
+        }
+    }
+    returned && switches >= 4
+}
+
+impl C16 {
+    fn check(&self, env: &mut Env, src: &str, tape: &[u8], special: bool, labels: Vec<&'static str>) -> CaseOut {
+        let base = run(src, &RunCfg::default());
+        if base.completion.is_limit() {
+            return CaseOut::skip(src.to_string(), "boa-limit");
+        }
+        // reference: V8
+        let (np, nc) = match env.node().and_then(|n| node_script(n, src)) {
+            Ok(x) => x,
+            Err(e) => return CaseOut::skip(src.to_string(), format!("oracle-error: {e}")),
+        };
+        if base.prints != np || base.completion.render() != nc {
+            let k = base.prints.iter().zip(np.iter()).position(|(a, b)| a != b).unwrap_or(base.prints.len().min(np.len()));
+            return CaseOut::fail(src.to_string(), "order: evaluate+run_jobs differs from V8", format!("first differing line {k}: boa={:?} v8={:?}\n--- boa\n{}\n--- v8\n{}\n=> {nc}", base.prints.get(k), np.get(k), base.render(), np.join("\n"))).with_labels(labels);
+        }
+        let mut t = Tape::new(tape);
+        let mut budgets: Vec<u32> = vec![1, 2, 3, 5, 8, 64, 1 << 20];
+        if env.tier == Tier::Quick {
+            budgets = vec![1, [2u32, 3, 5, 8][t.below(4)], [64u32, 1 << 20, 13, 100][t.below(4)]];
+        }
+        for b in budgets {
+            let tr = run(src, &RunCfg { entry: Entry::AsyncBudget(b), ..RunCfg::default() });
+            if let Some((sig, d)) = diff_traces("evaluate+run_jobs", &base, &format!("async-budget-{b}"), &tr) {
+                return CaseOut::fail(src.to_string(), format!("budget: {sig}"), d).with_labels(labels);
+            }
+        }
+        let mut schedules: Vec<Vec<usize>> = vec![vec![1], vec![2], vec![3]];
+        schedules.push((0..8).map(|_| 1 + t.below(4)).collect());
+        if env.tier == Tier::Quick {
+            schedules = vec![vec![1], (0..8).map(|_| 1 + t.below(4)).collect()];
+        }
+        for sch in schedules {
+            let tr = run_partial(src, &sch);
+            if let Some((sig, d)) = diff_traces("evaluate+run_jobs", &base, &format!("partial-drain-{sch:?}"), &tr) {
+                return CaseOut::fail(src.to_string(), format!("partial-drain: {sig}"), d).with_labels(labels);
+            }
+        }
+        let nontrivial = interleaved(&base.prints) && special;
+        let mut labels = labels;
+        if interleaved(&base.prints) {
+            labels.push("interleaved-trace");
+        }
+        CaseOut::pass(src.to_string(), nontrivial).with_labels(labels)
+    }
+}
 
 impl Prop for C16 {
     fn id(&self) -> &'static str {
         "C16"
     }
-    fn streams(&self, _tier: Tier) -> Vec<Stream> {
-        vec![]
+    fn streams(&self, tier: Tier) -> Vec<Stream> {
+        let m = if tier == Tier::Quick { 1 } else { 60 };
+        vec![Stream::new("async", 3000 * m, 300).batch(50)]
     }
     fn rule(&self) -> String {
-        "stub".into()
+        "programs of 2-6 racing chains whose every callback prints: then/catch/finally chains of different lengths, executors, thenables (objects with printing then, getters for then), rejected and nested promises, Promise subclasses, async functions awaiting each of those with try/catch/finally and return vs return await, async generators with queued next/throw/return and yield*, for-await over mixed iterables, all/allSettled/race/any, deferred resolution, await loops. Reference = V8's trace. boa is run as Script evaluate + one run_jobs, as evaluate_async_with_budget(b) for b in {1,2,3,5,8,64,2^20} (quick: 3 of them) + run_jobs, and with a harness JobExecutor that is FIFO but drains only j jobs per run_jobs call (j=1,2,3 and a tape-random schedule); all traces must be equal. Non-trivial = the trace interleaves >= 2 chains (returns to a chain after leaving it, >= 4 switches) and the program has a thenable, Promise subclass, or async-generator step; distinct = distinct source".into()
     }
-    fn run_case(&self, _env: &mut Env, _stream: &str, _index: u64, _tape: &[u8]) -> CaseOut {
-        CaseOut::skip(String::new(), "stub")
+    fn run_case(&self, env: &mut Env, _stream: &str, _index: u64, tape: &[u8]) -> CaseOut {
+        let p = generate(tape);
+        self.check(env, &p.src, tape, p.has_thenable_or_asyncgen, p.labels)
+    }
+    fn run_rendered(&self, env: &mut Env, _stream: &str, rendered: &str) -> Option<CaseOut> {
+        Some(self.check(env, rendered, rendered.as_bytes(), true, vec![]))
     }
 }
